@@ -46,6 +46,8 @@ ALL_FF = ['NOV', 'REH', 'ENG', 'CTD', 'CTS', 'UCTD']
 ALL_FS = ['NOV', 'SE2', 'MIT', 'CTD', 'UCTD']
 ALL_MIX = ['MIT', 'CTD', 'UCTD']
 
+_CPU_BUDGET_S = 200.0
+
 SEMANTIC = ['pins_dont_fit', 'wire_too_thick', 'clad_too_thick',
             'nonpositive_dimension', 'duct_ge_pitch', 'unequal_outer_ducts',
             'axial_region_inverted', 'axial_region_overlap',
@@ -282,6 +284,19 @@ def run_command(dirpath, parallel_pool=None):
     root = logging.getLogger('dassh')
     root.setLevel(logging.DEBUG)
     root.addHandler(cap)
+    # liveness outside the mesh construction (reader loops, iterations):
+    # a CPU-time budget far above what any generated input needs (< 20 s);
+    # processor time of this process, so machine load does not matter.  It
+    # re-fires because DASSH has bare "except:" clauses that may swallow it
+    import signal
+
+    def _cpu_budget(signum, frame):
+        raise sim.BudgetExceeded(
+            f'no verdict and no result after {_CPU_BUDGET_S} s of '
+            f'processor time')
+
+    old_vt = signal.signal(signal.SIGVTALRM, _cpu_budget)
+    signal.setitimer(signal.ITIMER_VIRTUAL, _CPU_BUDGET_S, 5.0)
     try:
         with S, fs:
             try:
@@ -299,6 +314,8 @@ def run_command(dirpath, parallel_pool=None):
                 outcome = 'crash'
                 detail = f'{c.etype}@{c.site}: {str(e)[:160]}'
     finally:
+        signal.setitimer(signal.ITIMER_VIRTUAL, 0.0)
+        signal.signal(signal.SIGVTALRM, old_vt)
         dassh.logged_class.init_root_logger = orig_init
         root.removeHandler(cap)
         dassh.logged_class.shutdown_logger('dassh')
